@@ -193,6 +193,28 @@ func checkC17(c *vlib.Ctx) (string, string) {
 		}
 		tryCfg(l)
 	})
+	// (a') long names in every letter-case pattern (conversion buffers, length-indexed tables): sizes around every
+	// power of two up to 64 KiB, the convertible letter first, last, everywhere, alternating
+	for _, sz := range []int{1, 2, 15, 16, 17, 31, 32, 33, 63, 64, 65, 66, 127, 128, 129, 255, 256, 257, 1023, 1024, 1025, 4096, 65535, 65536, 65537} {
+		fill := func(c byte) string { return strings.Repeat(string(c), sz-1) }
+		alt := func(a, b string) string { return strings.Repeat(a+b, sz/2+1)[:sz] }
+		for _, v := range []string{fill('x') + "A", "A" + fill('x'), fill('X') + "a", "a" + fill('X'), strings.Repeat("X", sz), strings.Repeat("x", sz), alt("x", "Y"), alt("X", "y"), alt("-", "Z"), fill('x') + "\xff", fill('X') + "é"} {
+			for field := 0; field < 4; field++ {
+				l := valid
+				switch field {
+				case 0:
+					l.Methods = []string{v, "PUT"}
+				case 1:
+					l.RequestHeaders = []string{"X-A", v}
+				case 2:
+					l.ResponseHeaders = []string{v}
+				case 3:
+					l.Origins = []string{"https://" + v, v + "://a.b", "https://a.b:" + v}
+				}
+				tryCfg(l)
+			}
+		}
+	}
 	// (b) pairs and triples over a pool of edge-case patterns (tree insertion with unusual hosts)
 	pool := []string{"*", "a://a", "a://a.", "a://*.a", "a://*.a.", "a://a:1", "a://a:*", "a://*.a:*", "a://b.a", "a://ba", "a://1.2.3.4", "a://[::1]", "a://[::]", "a://[1::]:*", "b://a", "a://" + c01Host253, "a://" + c01Host253 + ".", "a://*." + c01Base251, c01Scheme64 + "://a:65535", "a://xn--a", "a://a-", "a://0", "a://0.a", "a://a.0", "a://_", "", "a://", "null"}
 	pw := vlib.NewWords(pool, 3)
